@@ -182,6 +182,7 @@ def _phase_client(scn, w, broker, res):
     t0 = loop.time()
     results = []
     expected = []  # ("line", text) | ("err",)
+    expected_at = []  # when each of them reached the client
     state = {"reader_blocked": False, "dropped": False, "delivered": 0}
 
     async def reader():
@@ -228,11 +229,13 @@ def _phase_client(scn, w, broker, res):
                 if want is None:
                     res.probes["payload_binary"] += 1
                 expected.append(("line", want) if want is not None else ("err",))
+                expected_at.append(loop.time() - t0)
             elif ev["op"] == "drop":
                 res.probes["broker_drop"] += 1
                 broker.drop_connection()
                 state["dropped"] = True
                 expected.append(("err",))
+                expected_at.append(loop.time() - t0)
                 break
             elif ev["op"] == "foreign":
                 # a topic outside '<in>/+/+/0-4/+/+': must not be delivered as a line if it does not match
@@ -240,6 +243,7 @@ def _phase_client(scn, w, broker, res):
                     parts = ev["topic"].split("/")
                     broker.inject(ev["topic"], b"1", 0)
                     expected.append(("line", ";".join(parts[-5:]) + ";1"))
+                    expected_at.append(loop.time() - t0)
 
     wres = []
     started = []
@@ -324,8 +328,10 @@ def _phase_client(scn, w, broker, res):
     if not reader_t.done() and len(results) < min(len(expected), cfg["reads"]):
         undelivered = len(expected) - len(results)
         # events that arrived before the transport was disconnected must reach the blocked reader
-        last_event_at = max([ev["at"] for ev in scn["events"]][: len(expected)] or [0])
-        if cfg["disconnect_at"] > last_event_at + 0.01 and cfg["read_start"] < cfg["disconnect_at"]:
+        # only events that reached the client strictly before the disconnect are owed to the blocked reader
+        owed = [k for k, at in enumerate(expected_at) if at < cfg["disconnect_at"] - 0.01]
+        undelivered = len([k for k in owed if k >= len(results)])
+        if undelivered and cfg["read_start"] < cfg["disconnect_at"]:
             kinds = "binary-payload" if any(e[0] == "err" for e in expected[len(results):]) and not state["dropped"] else "event"
             res.violate(PROP, "never-silently-deaf", f"reader-blocked-with-undelivered-{kinds}",
                         f"{undelivered} broker events never reached read(); results={len(results)} expected={expected}"[:400])
